@@ -120,6 +120,7 @@ func runC08(c *Ctx) {
 	c.patternLoopsComplete("E7")
 	c.c08PatternsAreTheCallersOwn()
 	c.c08FilterLeavesOutOnlyWhatMatches()
+	c.c08PatternsCompiledAsGiven()
 	s := &c08State{c: c, eff: c.computeEffects(), E: map[*ssa.Function][]int{}}
 	var members []*ssa.Function
 	for _, f := range c.srcFuncs(fsPkgRel) {
@@ -952,4 +953,59 @@ func (c *Ctx) c08FilterLeavesOutOnlyWhatMatches() {
 	skip := pathPruned(f, first, func(i ssa.Instruction) bool { return i == ssa.Instruction(app) }, func(i ssa.Instruction) bool { return i == first }, prune)
 	c.check(skip == nil, "E15", key, c.ipos(ex), "the only way round the append is the true side of IsPathExcluded",
 		"an item can be left out of the result without IsPathExcluded having matched it (a way round the append at "+c.ipos(app)+" that does not pass the true side of the test): an entry whose name is passed over on other grounds — a name made of white space, which reflection.IsEmpty takes for empty — vanishes from every listing, walk, copy and archive, and Remove reports success with it still there")
+}
+
+// c08PatternsCompiledAsGiven (E16): "for any … set of exclusion patterns: regular expressions". The expression compiled for
+// a pattern is the pattern: the first of the forms NewExclusionRegexList derives from a pattern is the caller's text itself
+// (the others wrap it). A textual 'simplification' of the pattern beforehand — leading or trailing `.*` trimmed — is not
+// one for every expression: `q\.*` (q followed by dots) becomes `q\`, which does not compile, and the whole set is refused
+// as invalid; `\Qab.*` silently becomes another literal.
+func (c *Ctx) c08PatternsCompiledAsGiven() {
+	c.rule("E16", "among the expressions NewExclusionRegexList derives from a pattern there is the pattern itself, as the caller gave it (the element of the parameter, not the result of a call): the text of a valid expression is never rewritten before it is compiled", 1)
+	front, f := c.c08Compiler()
+	if f == nil {
+		return
+	}
+	c.FuncsSeen[fname(f)] = true
+	var own *ssa.Parameter
+	for _, p := range f.Params {
+		if p.Type().String() == "[]string" {
+			own = p
+		}
+	}
+	key := fname(front) + "/pattern-compiled-as-given"
+	if own == nil {
+		c.undecided("E16", key, c.pos(f.Pos()), "the patterns parameter of the compiler was not found")
+		return
+	}
+	isElementOfOwn := func(v ssa.Value) bool {
+		u, ok := resolveValue(v).(*ssa.UnOp)
+		if !ok || u.Op != token.MUL {
+			return false
+		}
+		ia, ok := u.X.(*ssa.IndexAddr)
+		return ok && resolveValue(ia.X) == ssa.Value(own)
+	}
+	given := false
+	nApp := 0
+	allInstrs(f, func(in ssa.Instruction) {
+		cl, ok := in.(*ssa.Call)
+		if !ok || calleeFull(&cl.Call) != "builtin.append" || len(cl.Call.Args) != 2 || cl.Call.Args[0].Type().String() != "[]string" {
+			return
+		}
+		nApp++
+		for _, e := range variadicElems(cl.Call.Args[1]) {
+			if isElementOfOwn(e) {
+				given = true
+			}
+		}
+	})
+	// the pattern may also be compiled directly
+	allInstrs(f, func(in ssa.Instruction) {
+		if cl, ok := in.(*ssa.Call); ok && strings.HasPrefix(calleeFull(&cl.Call), "regexp.") && strings.Contains(calleeFull(&cl.Call), "Compile") && len(cl.Call.Args) > 0 && isElementOfOwn(cl.Call.Args[0]) {
+			given = true
+		}
+	})
+	c.check(given, "E16", key, c.pos(f.Pos()), "the caller's pattern is among the expressions compiled for it, unchanged",
+		"none of the expressions compiled for a pattern is the pattern as the caller gave it: the text is rewritten first (a leading or trailing `.*` trimmed, say), which is not a simplification for every expression — `q\\.*` loses the dot its backslash escaped and no longer compiles, so a valid set of patterns is refused as 'invalid' by every operation, and a pattern such as `\\Qab.*` silently names other entries than it did")
 }
